@@ -191,6 +191,46 @@ def ob_main_script(p1: int, p2: int, a: int) -> bool:
         return H.verdict(not probs)
 
 
+def ob_two_stores(order: int, a: int, form: int) -> bool:
+    """
+    pre: 0 <= order <= 2
+    pre: 0 <= a <= 3 and 0 <= form <= 3
+    post: _
+    """
+    H.enter()
+    # one process caches the same function through two Memory objects (two directories); a fresh process then repeats
+    # the call against either directory: both are hits
+    od, aa, fm = H.select(order, 0, 2), H.select(a, 0, 3), H.select(form, 0, 3)
+    with H.native():
+        from joblib import Memory
+        from symx.stubs import fakefs
+        fs = fakefs.FS()
+        clock = memlib.Clock()
+        probs = []
+        forms = memcalls.forms_for("f")
+        with memlib.env(fs, clock):
+            memlib.fresh_process()
+            ns = memlib.define(fs, "memcalls_mod", memcalls.SRC)
+            stores = [memlib.CACHE + "_A", memlib.CACHE + "_B"]
+            first = [[0, 1], [1, 0], [0, 1, 0]][od]
+            for i in first:
+                args, kwargs = forms[fm][1](memcalls.U[aa], 2)
+                Memory(stores[i], verbose=0).cache(ns["f"])(*args, **kwargs)
+            for i in (1, 0):
+                memlib.fresh_process()
+                ns = memlib.define(fs, "memcalls_mod", memcalls.SRC)
+                g = Memory(stores[i], verbose=0).cache(ns["f"])
+                args, kwargs = forms[0][1](memcalls.U[aa], 2)
+                del ns["LOG"][:]
+                inc = g.check_call_in_cache(*args, **kwargs)
+                g(*args, **kwargs)
+                if inc is not True or ns["LOG"]:
+                    probs.append("fresh process on store %s: check_call_in_cache=%r, body ran %d times" % ("AB"[i], inc, len(ns["LOG"])))
+        for m in probs:
+            H.note("stores called in order %r: %s" % (first, m))
+        return H.verdict(not probs)
+
+
 def ob_accepts(args: List[int], k_a: bool, k_b: bool, k_k: bool, extra: bool) -> bool:
     """
     pre: len(args) <= 4
@@ -257,6 +297,8 @@ def obligations(tier, seed):
     for prog in ("f", "k1.m"):
         obs.append({"name": "ignore/%s" % prog, "fn": "ob_ignore", "mode": "S", "params": {"program": prog},
                     "timeout": 900, "bounds": "ignore=['b']: forms 3x3, a, b1, b2 in universe[:4], second call same or other a"})
+    obs.append({"name": "two_stores", "fn": "ob_two_stores", "mode": "S", "timeout": 300,
+                "bounds": "the same function cached in two directories by one process (3 call orders), then a fresh process per directory"})
     obs.append({"name": "main_script", "fn": "ob_main_script", "mode": "S", "timeout": 300,
                 "bounds": "a __main__ function, the script path spelled in 5 equivalent ways, two processes, arg 0..1"})
     obs.append({"name": "containers", "fn": "ob_containers", "mode": "S", "timeout": 300,
